@@ -124,6 +124,9 @@ impl CertReloader {
             create_server_config_from_files(&self.config.cert_path, &self.config.key_path)?;
         let new_acceptor = Arc::new(TlsAcceptor::from(new_config));
 
+        // H7: fault point between the two reads of the certificate file
+        #[cfg(anytls_verif)]
+        ::anytls_simnet::fault::point("cert_reload.between_reads");
         // Analyze new certificate
         let new_cert_info = CertificateInfo::from_pem_file(&self.config.cert_path)?;
 
